@@ -37,6 +37,17 @@ def handleTime : List String → String
       | .ok _ =>
         let ((s, n), counted) := Time.transform bs 12345 678
         s!"{showInt s} {n} {if counted then 1 else 0}"
+  | ["zonealias", _, _, h] =>
+    -- many fresh transform instances, each fed value A and then value B through one reused backing buffer: the model has
+    -- no state between values, so every instance must report for B what a single `xform` of B reports
+    match unhex h with
+    | none => "bad-op"
+    | some bs =>
+      match Time.parseGo bs with
+      | .error p => s!"panic {p.name}"
+      | .ok _ =>
+        let ((s, n), counted) := Time.transform bs 12345 678
+        s!"{showInt s} {n} {if counted then 1 else 0}"
   | _ => "bad-op"
 
 structure DState where
